@@ -20,10 +20,14 @@ Theorem C13_pause_begins : forall c s s' o, step c s ILoopPause = Some (s', o) -
 Proof. exact loop_pause_effect. Qed.
 Print Assumptions C13_pause_begins.
 
-(* resume happens at the instant the sleep ends, raises the resume event and makes Pause() effective again *)
+(* resume happens at the instant the sleep ends, raises the resume event and makes Pause() effective again: the phase
+   is back to started when the event is raised, so even a Pause() made by a listener's own goroutine in answer to that
+   very event is accepted and starts a new pause (the second alternative; reacts_left counts such listeners) *)
 Theorem C13_resume_exactly_at_the_end : forall c s s' o, step c s ILoopResume = Some (s', o) ->
   loop s = LSleeping (now s) /\ loop s' = LIdle /\ o = [OEvResume]
-  /\ (phase_ s = PPaused -> phase_ s' = PStarted).
+  /\ (phase_ s = PPaused ->
+      (reacts_left s = 0%nat /\ phase_ s' = PStarted /\ pause_tok s' = pause_tok s)
+      \/ (exists n, reacts_left s = S n /\ reacts_left s' = n /\ phase_ s' = PPaused /\ pause_tok s' = true)).
 Proof. exact loop_resume_effect. Qed.
 Print Assumptions C13_resume_exactly_at_the_end.
 
@@ -40,7 +44,10 @@ Print Assumptions C13_not_longer.
 
 (* at the end of the sleep the resume is enabled whatever else has happened (including a shutdown request) *)
 Theorem C13_always_resumes : forall c s t, loop s = LSleeping t -> now s = t -> exists s', step c s ILoopResume = Some (s', [OEvResume]).
-Proof. intros c s t L N. simpl. unfold do_loop_resume. rewrite L. subst t. rewrite Z.eqb_refl. eexists. reflexivity. Qed.
+Proof.
+  intros c s t L N. simpl. unfold do_loop_resume. rewrite L. subst t. rewrite Z.eqb_refl.
+  destruct (reacts_left s); [eexists; reflexivity|]. destruct (phase_ s); eexists; reflexivity.
+Qed.
 Print Assumptions C13_always_resumes.
 
 (* operations enqueued before or during the pause are all still accounted for (C01's invariant holds across the pause) *)
